@@ -118,7 +118,7 @@ def obj1d(rng, kind):
 
 
 def _overflow_case(rng, tols):
-    kind = rng.choice(["cosh", "cosh", "cosh", "morse", "lj", "quadratic", "quartic"])
+    kind = rng.choice(["cosh", "cosh", "cosh", "morse", "lj"])
     for _try in range(50):
         e, info = obj1d(rng, kind)
         s = info["scale"]; c = info["c"]
@@ -133,11 +133,8 @@ def _overflow_case(rng, tols):
                 xl = c + rng.choice([-1, 1]) * s * 710.0 * (1 - 10 ** rng.uniform(-6, -0.3)); xr = xl + rng.choice([-1, 1]) * s * 10 ** rng.uniform(-3, 3)
         elif kind == "morse":   # exp(-k u) overflows for u < -709 s (its square beyond -355 s)
             xl = c - s * rng.choice([rng.uniform(10, 354), rng.uniform(354, 709), 10 ** rng.uniform(0, 2.85)]); xr = xl + rng.choice([-1, 1]) * s * 10 ** rng.uniform(-3, 2.5)
-        elif kind == "lj":      # (r0/x)^12 overflows for x < 2e-26 r0
+        else:                   # (r0/x)^12 overflows for x < 2e-26 r0
             xl = c * 10 ** rng.uniform(-27, -0.3); xr = xl * (1 + rng.choice([-1, 1]) * 10 ** rng.uniform(-3, -0.1)) if rng.random() < 0.5 else c * 10 ** rng.uniform(-27, 0.5)
-        else:                   # (x-c)^2, (x-c)^4 overflow beyond 1e154, 1e77 (times the scale)
-            p = 154.0 if kind == "quadratic" else 77.0
-            xl = c + rng.choice([-1, 1]) * s * 10 ** rng.uniform(p - 12, p + 1); xr = xl + rng.choice([-1, 1]) * abs(xl - c) * 10 ** rng.uniform(-3, 1)
         if xl == xr or math.isinf(xl) or math.isinf(xr): continue
         fl, fr = f([xl, 0.0, 0.0]), f([xr, 0.0, 0.0])
         if math.isfinite(fl) and math.isfinite(fr): break
@@ -350,6 +347,21 @@ def _pred_1d(c, io, P, x, trace, sense, tag):
     return out
 
 
+def _flat_in_doubles(f, info, trace, bound):
+    """premise of the convergence clause: the objective is unimodal.  In doubles a bowl with a saturating flank (Morse and Lennard-Jones tails,
+    1 - exp(-k u) rounding to 1) is exactly constant there; a search that was thrown onto that plateau sees equal values and has nothing to descend on.
+    True when two visited points on the same side of the minimiser(s), further apart than the convergence bound, have the same FINITE value
+    (equal +inf values on an overflowing flank do not count: an infinite value never beats a finite one, so they cannot mislead a comparison)."""
+    pts = sorted(set(t for t in trace if t == t and not math.isinf(t)))
+    vals = [f([t, 0.0, 0.0]) for t in pts]
+    for i in range(len(pts) - 1):
+        j = i + 1
+        while j < len(pts) and not any(pts[i] < xs < pts[j] for xs in info["xstar"]):
+            if vals[i] == vals[j] and math.isfinite(vals[i]) and pts[j] - pts[i] > bound: return True
+            j += 1
+    return False
+
+
 def predicates(c, io):
     out = []
     op = c.line.split()[0]
@@ -383,7 +395,8 @@ def predicates(c, io):
             res = info["res"](x)
             dist = min(abs(x - xs) for xs in info["xstar"])
             bound = 2 * tol1 + res
-            if info.get("neg"): pass
+            if not (dist <= bound) and _flat_in_doubles(P["f"], info, trace, bound):
+                return out      # premise fails: on the visited points the objective is not strictly unimodal in doubles (see _flat_in_doubles)
             if not (dist <= bound):
                 out.append((f"{op.replace('_default','')}:converged", f"{info['kind']} bowl with minimiser {info['xstar'][0]!r}: returned {x!r}, distance {dist:.3g} > 2*tol1 + resolution = {bound:.3g} (tol {tol:g})"))
         return out
